@@ -55,6 +55,15 @@ def coq_term(t):
 def coq_cond(c):
     k = c[0]
     if k == 'cmp':
+        # an operand  ['subq', i, cond, term]  is  term  read off the sub-query  an(entity(variable i, cond)):  the operand is
+        # restricted to the sub-query's solutions (C15): the comparison and-ed with the sub-query as a condition
+        subs = [t for t in (c[2], c[3]) if t[0] == 'subq']
+        if subs:
+            l, r = (t[3] if t[0] == 'subq' else t for t in (c[2], c[3]))
+            out = f"SCmp {COQ_OP[c[1]]} ({coq_term(l)}) ({coq_term(r)})"
+            for t in subs:
+                out = f"SAnd (SSub [TVar {t[1]}] ({coq_cond(t[2])})) ({out})"
+            return out
         return f"SCmp {COQ_OP[c[1]]} ({coq_term(c[2])}) ({coq_term(c[3])})"
     if k == 'in':
         return f"SIn ({coq_term(c[1])}) ({coq_term(c[2])})"
@@ -120,6 +129,10 @@ def parse_rows(s):
 
 # ------------------------------------------------------------------------------------------------ helpers on cases
 def term_keys(t, acc):
+    if t[0] == 'subq':
+        acc.add(t[1])
+        term_keys(t[3], acc)
+        return acc
     if t[0] == 'var':
         acc.add(t[1])
     elif t[0] == 'map':
